@@ -3,6 +3,7 @@
    mathematical definition (Int.gcd, Bezout identity, Int.lcm, a·x ≡ 1). -/
 import Driver.C02
 import RelicVerif.Model.NtGcd
+import RelicVerif.Model.NtLehmer
 
 namespace Driver.C09Gcd
 open Driver Relic.Model
@@ -16,6 +17,23 @@ def outInt (s : String) : Option Int :=
 
 def fmt3 (w : Nat) (r : Int × Int × Int) : String :=
   fmtIntNF w r.1 ++ " " ++ fmtIntNF w r.2.1 ++ " " ++ fmtIntNF w r.2.2
+
+/-- which branches of Lehmer's outer loop a line exercises (first iterations) -/
+def lehmeTags (w : Nat) (a b : Int) : List String :=
+  if a = 0 ∨ b = 0 then [] else
+  let x : Int := if a.natAbs ≥ b.natAbs then a.natAbs else b.natAbs
+  let y : Int := if a.natAbs ≥ b.natAbs then b.natAbs else a.natAbs
+  let rec go (fuel : Nat) (x y : Int) (acc : List String) : List String :=
+    match fuel with
+    | 0 => acc
+    | f + 1 =>
+      if NtLehmer.multiDigit w y then
+        match NtLehmer.lehmeStep w x y with
+        | none => "lehme:overflow" :: acc
+        | some r => go f r.x r.y ((if r.euclid then "lehme:euclid-fallback" else "lehme:matrix-step") :: acc)
+      else acc
+  let ts := go 64 x y []
+  (if ts.isEmpty then ["lehme:single-digit-only"] else ts.eraseDups)
 
 def handle (w _cap digs : Nat) (op : String) (args : List String) (got : String) : Option Verdict :=
   let fmt := fun (v : Int) => fmtIntNF w v
@@ -37,6 +55,9 @@ def handle (w _cap digs : Nat) (op : String) (args : List String) (got : String)
     match v with
     | "basic" | "gcd" => mk (fmt (NtGcd.gcdBasic a b0)) [fmt (Int.gcd a b0)] (tg "basic")
     | "binar" => mk (fmt (NtGcd.gcdBinar a b0)) [fmt (Int.gcd a b0)] (tg "binar")
+    | "lehme" => mk (match NtLehmer.gcdLehme w a b0 with
+        | some r => fmt r
+        | none => "model-overflow-or-fuel") [fmt (Int.gcd a b0)] (tg "lehme" ++ lehmeTags w a b0)
     | "dig" =>
       let b : Nat := b0.natAbs % 2 ^ w
       mk (fmt (NtGcd.gcdDig a b)) [fmt (Int.gcd a b)] (tg "dig")
@@ -60,6 +81,9 @@ def handle (w _cap digs : Nat) (op : String) (args : List String) (got : String)
     match v with
     | "basic" | "ext" => mk (fmt3 w (NtGcd.gcdExtBasic a b)) sp (tg "basic")
     | "dig" => mk (fmt3 w (NtGcd.gcdExtDig a b.natAbs)) sp (tg "dig")
+    | "lehme" => mk (match NtLehmer.gcdExtLehme w a b with
+        | some r => fmt3 w r
+        | none => "model-overflow-or-fuel") sp (tg "lehme" ++ lehmeTags w a b)
     | "binar" =>
       let fixed : Bool := match NtGcd.gcdExtBinarImp a b with
         | some _ => false
